@@ -549,4 +549,67 @@ theorem openAt_conf (fs : FS) (cwd : RPath) (dest rel : Str) (d : RPath)
           subst h1; subst h2
           exact ⟨rfl, hu, by rw [hres]; exact hf, hk, hlp⟩
 
+
+theorem isDirC_of_walk (fs : FS) (cwd : RPath) (cs : List Comp) (p : RPath) (hne : cs ≠ [])
+    (h : walk fs cwd cs = .ok p) : isDirC fs cwd cs = true := by
+  unfold isDirC
+  cases cs with
+  | nil => exact absurd rfl hne
+  | cons c r => simp only [h]
+
+/-- opening the same location again (a later object with the same Content-Location, "existing files will be
+    overwritten"): no directory is created, the same file is truncated, nothing else changes -/
+theorem openAt_again (fs : FS) (cwd : RPath) (dest rel : Str) (d : RPath)
+    (hw : walk fs cwd (components dest) = .ok d) (hdne : dest ≠ []) (hcne : components dest ≠ [])
+    (hrel : relOk rel = true)
+    (dst : Str) (f : RPath) (fresh : Bool) (hop : (openAt fs cwd dest rel).opened = some (dst, f, fresh)) :
+    openAt (openAt fs cwd dest rel).fs cwd dest rel =
+      ⟨(openAt fs cwd dest rel).fs, [], some (dst, f, false)⟩ := by
+  have spec := openAt_conf fs cwd dest rel d hw hdne hrel
+  obtain ⟨hdst, hu, hf, hfile, hlp⟩ := spec.opened dst f fresh hop
+  obtain ⟨_, _, l, hl, hcr, _⟩ := relOk_spec rel hrel
+  have hcj : components (join dest rel) = components dest ++ l.map .normal := by
+    rw [components_join dest rel hdne hrel, hcr]
+  rcases snoc_cases l with h0 | ⟨l', s, hls⟩
+  · exact absurd h0 hl
+  subst hls
+  have hpar : parentC (components (join dest rel)) = some (components dest ++ l'.map .normal) := by
+    rw [hcj]
+    have : components dest ++ (l' ++ [s]).map Comp.normal = (components dest ++ l'.map .normal) ++ [.normal s] := by simp
+    unfold parentC
+    rw [this, List.getLast?_concat, List.dropLast_concat]
+  generalize hofs : (openAt fs cwd dest rel).fs = ofs at hfile hlp ⊢
+  -- the parent directory exists in `o.fs` (the lookup of the file succeeded there)
+  have hdir : isDirC ofs cwd (components dest ++ l'.map .normal) = true := by
+    have hlp' := hlp
+    rw [hdst] at hlp'
+    unfold lookupParent at hlp'
+    have hlast : (components (join dest rel)).getLast? = some (.normal s) := by
+      rw [hcj]
+      have : components dest ++ (l' ++ [s]).map Comp.normal = (components dest ++ l'.map .normal) ++ [.normal s] := by simp
+      rw [this, List.getLast?_concat]
+    have hdrop : (components (join dest rel)).dropLast = components dest ++ l'.map .normal := by
+      rw [hcj, below_dropLast]
+    cases ht : trailingDir (join dest rel) with
+    | true => simp [ht] at hlp'
+    | false =>
+      simp only [ht, Bool.false_eq_true, if_false, hlast, hdrop] at hlp'
+      cases hwk : walk ofs cwd (components dest ++ l'.map .normal) with
+      | error e => simp [hwk] at hlp'
+      | ok d' =>
+        exact isDirC_of_walk ofs cwd _ d' (by simp [hcne]) hwk
+  unfold openAt
+  simp only [hpar, hdir, if_true]
+  unfold fileCreate
+  rw [← hdst, hlp]
+  simp only [hfile]
+
+
+theorem splitSlash_noslash : ∀ (s : Str), 47 ∉ s → splitSlash s = [s]
+  | [], _ => by simp [splitSlash]
+  | c :: r, h => by
+    have hc : c ≠ 47 := fun hc => h (by simp [hc])
+    have hr : 47 ∉ r := fun hr => h (by simp [hr])
+    simp only [splitSlash, hc, if_false, splitSlash_noslash r hr]
+
 end Flute.Lemmas.PathMap
